@@ -253,6 +253,8 @@ func C14(c *fw.Ctx) {
 		{"asg", func() *model.N { return model.Grp(model.Asg("w", model.Bin("+", model.Bin("*", model.Id("w"), model.Num(2)), model.Num(1)))) }},
 		{"call", func() *model.N { return model.CallN("bump") }},
 		{"elem", func() *model.N { return model.Idx(model.Id("wa"), model.Num(0)) }},
+		{"fault-div", func() *model.N { return model.Grp(model.Bin("/", model.Num(1), model.Num(0))) }},
+		{"fault-neg", func() *model.N { return model.Un("-", model.Str("s")) }},
 		{"elem-store", func() *model.N { return model.Grp(model.IAsg(model.Id("wa"), model.Num(0), model.Bin("+", model.Idx(model.Id("wa"), model.Num(0)), model.Num(10)))) }},
 	}
 	bumpPre := func() []*model.N {
@@ -295,8 +297,26 @@ func C14(c *fw.Ctx) {
 			}
 		}
 	}
+	// every pair of operators in an unparenthesised chain of three probes: p op1 p op2 p
+	for _, op1 := range append(allOps, logOps...) {
+		for _, op2 := range append(allOps, logOps...) {
+			for vi, vs := range [][3]float64{{1, 5, 10}, {10, 5, 1}, {0, 0, 1}, {2, 2, 2}} {
+				if !c.Mine() {
+					continue
+				}
+				text := fmt.Sprintf("%s p(\"T1\", %v) %s p(\"T2\", %v) %s p(\"T3\", %v);", model.KwPrint, vs[0], op1, vs[1], op2, vs[2])
+				stmts, err := model.ParseSource(text)
+				if err != nil {
+					c.HarnessError("C14 chain does not parse: " + text)
+					continue
+				}
+				_ = vi
+				judgeAllSchedules(c, append(c14Prelude(), stmts...), "chain|"+op1+"|"+op2)
+			}
+		}
+	}
 	// three holes: a op b op c with every leaf form (left-to-right across a chain)
-	for _, op := range []string{"+", "*", "-", "==", model.KwOr, model.KwAnd} {
+	for _, op := range append(append([]string{}, allOps...), model.KwOr, model.KwAnd) {
 		for _, la := range leafForms {
 			for _, lb := range leafForms {
 				for _, lc := range leafForms {
